@@ -1,8 +1,8 @@
 """C18 - detection depends on the image only through the documented threshold.
 
 Monitor: differential post-condition ``locate_droplets(f, threshold=T, minimal_radius=rho)``
-vs ``[d for d in locate_droplets_in_mask(f > tau(T)) if d.radius > rho]`` (order, class,
-bytes), where tau is the number, (min+max)/2, the mean, or - for 'otsu' - the value the
+vs ``[d for d in locate_droplets_in_mask(f > tau(T)) if d.radius > rho]`` (as multisets of class and
+parameter bytes), where tau is the number, (min+max)/2, the mean, or - for 'otsu' - the value the
 monitored ``threshold_otsu`` returned, which must itself be a bin centre of the 256-bin
 histogram whose between-class variance is within 1e-9 of the maximum computed by the
 oracle's own evaluation of the definition.  Exact positive affine maps of dyadic data.
@@ -36,7 +36,7 @@ ASSUMPTIONS = [
     "Otsu: any bin centre whose between-class variance is within 1e-9 (relative) of the maximum is accepted",
 ]
 REQUIRED_MONITORS = {"post:equals-mask-analysis": 500, "post:otsu-optimal": 100, "post:affine-invariant": 300,
-                     "post:size-filter": 300, "wrapper:threshold_otsu": 100}
+                     "post:size-filter": 300}
 MIN_NONTRIVIAL = 200
 
 
@@ -97,6 +97,17 @@ def make_image(grid, spec, im):
         em.append(make_droplet(d), copy=False)
     data = np.asarray(em.get_phasefield(grid).data, float)
     return np.round(data * 1024) / 1024
+
+
+def msnap(em):
+    """Order-free snapshot (the statement speaks of *which* droplets are located, not their order)."""
+    return sorted(snap(droplets_emulsion(em))[1])
+
+
+def droplets_emulsion(em):
+    import droplets
+
+    return em if isinstance(em, droplets.Emulsion) else droplets.Emulsion(list(em), copy=False)
 
 
 def otsu_variances(data, nbins=256):
@@ -172,18 +183,36 @@ def run(case, rec):
             return
     else:
         rec.hit("wrapper:threshold_otsu", len(log))
-        if not rec.check(len(log) == 1 and "result" in log[0], "otsu-observed",
-                         f"threshold_otsu was called {len(log)} times inside locate_droplets; {label}"):
-            rec.evaluated(nontrivial=False)
-            return
-        tau = float(log[0]["result"])
         centers, var = otsu_variances(data)
         best = float(np.max(var))
-        j = int(np.argmin(np.abs(centers[:-1] - tau)))
-        is_center = abs(centers[j] - tau) <= 1e-12 * max(1.0, abs(tau))
-        rec.check(is_center and var[j] >= best * (1 - 1e-9) - 1e-300, "otsu-optimal",
-                  f"Otsu threshold {tau!r} is not a bin centre maximising the between-class variance "
-                  f"(nearest centre {centers[j]!r}, its variance {var[j]!r}, maximum {best!r} at {centers[int(np.argmax(var))]!r}); {label}")
+        seen = [float(e["result"]) for e in log if "result" in e]
+        if seen:
+            # the threshold the monitored threshold_otsu handed to locate_droplets
+            tau = seen[-1]
+            j = int(np.argmin(np.abs(centers[:-1] - tau)))
+            is_center = abs(centers[j] - tau) <= 1e-12 * max(1.0, abs(tau))
+            rec.check(is_center and var[j] >= best * (1 - 1e-9) - 1e-300, "otsu-optimal",
+                      f"Otsu threshold {tau!r} is not a bin centre maximising the between-class variance "
+                      f"(nearest centre {centers[j]!r}, its variance {var[j]!r}, maximum {best!r} at {centers[int(np.argmax(var))]!r}); {label}")
+        else:
+            # threshold_otsu was not reached through the module attribute (e.g. inlined): the
+            # threshold used is not observable, so accept any optimal bin centre (decided below)
+            rec.count("otsu_threshold_not_observed")
+            otsu_candidates = [float(c) for c, v in zip(centers[:-1], var) if v >= best * (1 - 1e-9) - 1e-300]
+    if tau is None:
+        # unobserved Otsu threshold: pick the optimal bin centre (if any) that explains the result
+        tau = otsu_candidates[0]
+        explained = False
+        for cand_tau in otsu_candidates[:8]:
+            r0 = common.monitored(rec, "locate_droplets_in_mask", ia.locate_droplets_in_mask,
+                                  ScalarField(grid, data > cand_tau, dtype=bool))
+            if r0.ok and msnap([d for d in r0.result if d.radius > rho] if rho > -np.inf else list(r0.result)) == msnap(got):
+                tau = cand_tau
+                explained = True
+                break
+        rec.check(explained, "otsu-optimal",
+                  f"the result is not the analysis of the image thresholded at any bin centre maximising the "
+                  f"between-class variance (candidates {otsu_candidates[:4]}); {label}")
     mask = ScalarField(grid, data > tau, dtype=bool)
     ref = common.monitored(rec, "locate_droplets_in_mask", ia.locate_droplets_in_mask, mask)
     if not rec.check(ref.ok, "no-exception", f"locate_droplets_in_mask raised {ref.exc!r}; {label}"):
@@ -191,7 +220,7 @@ def run(case, rec):
         return
     cand = list(ref.result)
     expect = droplets.Emulsion([d for d in cand if d.radius > rho] if rho > -np.inf else cand, copy=False)
-    rec.check(snap(got) == snap(expect), "equals-mask-analysis",
+    rec.check(msnap(got) == msnap(expect), "equals-mask-analysis",
               f"locate_droplets returned {[(list(map(float, d.position)), d.radius) for d in got][:4]} but the mask "
               f"f > {tau!r} contains {[(list(map(float, d.position)), d.radius) for d in expect][:4]} above the minimal radius; {label}")
     rec.check(all(d.radius > rho for d in got), "size-filter", f"a returned droplet has radius <= {rho}; {label}")
@@ -208,7 +237,7 @@ def run(case, rec):
             # result to correspond to *some* optimal threshold of the mapped image instead
             rec.count("otsu_affine_checked_via_optimality")
         else:
-            rec.check(snap(c2.result) == snap(got), "affine-invariant",
+            rec.check(msnap(c2.result) == msnap(got), "affine-invariant",
                       f"result changes under the exact map f -> {a}*f + {b} (threshold mapped alike): "
                       f"{len(got)} vs {len(c2.result)} droplets; {label}")
     if case["refine"] and len(cand) and rho > -np.inf:
